@@ -126,8 +126,10 @@ func Classify(err error) (int, int64) {
 		return RRejected, 0
 	case errors.Is(err, rpc.ErrEngineClosed):
 		return RClosedRetryable, 0
-	case err == context.Canceled:
+	case err == context.Canceled || err == context.DeadlineExceeded:
 		return RCtx, 0
+	case errors.Is(err, context.DeadlineExceeded):
+		return RCtx, 2 // the caller's deadline, but wrapped: Do is expected to return ctx.Err() itself
 	case errors.Is(err, context.Canceled) && strings.Contains(err.Error(), "engine forcibly closed"):
 		return RClosedAcked, 0
 	case errors.Is(err, ErrSend):
@@ -153,6 +155,7 @@ type actor struct {
 	started  bool
 	finished bool
 	detached bool
+	probed   bool // released although expected to block; its next message is accepted whenever it comes
 	// notifier
 	msgID int64
 	isErr bool
@@ -172,7 +175,8 @@ type callState struct {
 	plan     CallPlan
 	in       *mt.PingRequest
 	ctx      context.Context
-	cancel   context.CancelFunc
+	cancel   func()
+	expire   func() // the context ends like an expired deadline
 	timer    *ftimer
 	attempts int
 	// harness view of the readiness flags (used only to decide when a select may be entered)
@@ -215,6 +219,7 @@ type Sim struct {
 	Decisions    []Decision
 	Problems     []string // harness-level trouble (stuck actor, unknown goroutine)
 	Stranded     []string // callers that blocked although the engine was force-closed
+	TimerIdle    []string // calls found waiting in the retry loop without a pending retry timer
 	CloseCalled2 bool     // free-running families: ForceClose / Close has been called
 
 	calls    []*callState
@@ -358,8 +363,10 @@ func New(p Plan, stepped bool) *Sim {
 	s.schedG = goid()
 	s.clk = &fclock{s: s}
 	for i, cp := range p.Calls {
-		ctx, cancel := context.WithCancel(context.Background())
-		s.calls = append(s.calls, &callState{idx: i, plan: cp, in: &mt.PingRequest{PingID: cp.Body}, ctx: ctx, cancel: cancel,
+		dc := newDlCtx()
+		var ctx context.Context = dc
+		cancel := dc.cancel
+		s.calls = append(s.calls, &callState{idx: i, plan: cp, in: &mt.PingRequest{PingID: cp.Body}, ctx: ctx, cancel: cancel, expire: dc.expire,
 			ackEvIdx: -1, rclosedIdx: -1, claimedIdx: -1, pollUnacked: -1, procAckIdx: -1, retIdx: -1, retClass: -1})
 	}
 	s.Eng = rpc.New(s.send, rpc.Options{
@@ -565,6 +572,16 @@ func (s *Sim) deliver(d *delivery) int64 {
 	return 0
 }
 
+func recoverCall(f func()) (panicked bool, val interface{}) {
+	defer func() {
+		if r := recover(); r != nil {
+			panicked, val = true, r
+		}
+	}()
+	f()
+	return false, nil
+}
+
 func (s *Sim) notePanic(what string) {
 	s.pmu.Lock()
 	s.Panics = append(s.Panics, what)
@@ -593,13 +610,25 @@ func (s *Sim) problem(f string, a ...interface{}) {
 
 // await waits until actor a parks again or finishes, recording the event.
 func (s *Sim) await(a *actor) bool {
+	var deferred []msg
 	t := time.NewTimer(s.Timeout)
 	defer t.Stop()
 	for {
 		select {
 		case m := <-s.msgs:
+			if m.a != a && m.a.probed {
+				// a probed actor woke up: its step logically follows the step that woke it
+				m.a.probed = false
+				deferred = append(deferred, m)
+				continue
+			}
 			s.record(m)
 			if m.a == a {
+				a.probed = false
+				for _, dm := range deferred {
+					s.record(dm)
+				}
+				s.collectWoken()
 				return true
 			}
 			if !m.a.detached {
@@ -730,6 +759,11 @@ func (s *Sim) record(m msg) {
 		s.fclosed = true
 	case "XCloseMark":
 		s.eclosed = true
+	case "CSelect":
+		// "re-sent every retry interval": whenever the call waits in the retry loop its timer is pending
+		if t := a.call.timer; t == nil || !(t.isArmed() || len(t.ch) > 0) {
+			s.TimerIdle = append(s.TimerIdle, fmt.Sprintf("call %d (msg id %d) entered the retry loop's select at trace index %d with its retry timer neither armed nor fired (after %d transmissions): it will never be retransmitted again", a.idx, a.call.plan.ID, i, len(a.call.sends)))
+		}
 	case "CClosedUnacked":
 		a.call.pollUnacked = i
 	case "CSelAck", "CSelCtx", "CClosedAcked", "CClosedCtx", "CTimerAcked", "CTimerCtx":
@@ -745,7 +779,7 @@ func (s *Sim) record(m msg) {
 
 // releasable reports whether releasing a parked actor cannot block before its next point.
 func (s *Sim) releasable(a *actor) bool {
-	if !a.started || a.finished || a.detached {
+	if !a.started || a.finished || a.detached || a.probed {
 		return false
 	}
 	if a.kind != 'c' {
@@ -774,6 +808,53 @@ func (s *Sim) release(a *actor) bool {
 	return s.await(a)
 }
 
+// collectWoken waits for probed callers whose wake-up condition (done closed) now holds.
+func (s *Sim) collectWoken() {
+	for _, a := range s.actors {
+		if !a.probed || a.kind != 'c' || !a.call.done {
+			continue
+		}
+		t := time.NewTimer(s.Timeout)
+		for a.probed {
+			select {
+			case m := <-s.msgs:
+				if m.a.probed {
+					m.a.probed = false
+				}
+				s.record(m)
+			case <-t.C:
+				s.problem("probed actor %s never woke up although done is closed", a.name)
+				a.probed, a.detached = false, true
+				StuckTotal++
+			}
+		}
+		t.Stop()
+	}
+}
+
+// probe releases an actor parked where it is expected to BLOCK (rpc.do.await with the handler
+// still running) and gives it a moment: if it reaches another scheduling point it did not
+// block -- the event is recorded (the model will find it disabled and the oracles judge
+// what follows); otherwise it stays blocked and its next message is taken when it comes.
+func (s *Sim) probe(a *actor) bool {
+	if !a.started || a.finished || a.detached || a.probed || a.kind != 'c' || a.point != "rpc.do.await" || a.call.done {
+		return false
+	}
+	a.probed = true
+	a.resume <- struct{}{}
+	t := time.NewTimer(15 * time.Millisecond)
+	defer t.Stop()
+	select {
+	case m := <-s.msgs:
+		if m.a == a {
+			a.probed = false
+		}
+		s.record(m)
+	case <-t.C:
+	}
+	return true
+}
+
 // Apply executes one decision; it reports false if the decision is not applicable now.
 func (s *Sim) Apply(d Decision) bool {
 	ok := s.apply(d)
@@ -792,6 +873,12 @@ func (s *Sim) apply(d Decision) bool {
 		a := s.spawnCall(d.C)
 		s.await(a)
 		return true
+	case "probe":
+		a := s.actors[d.A]
+		if a == nil {
+			return false
+		}
+		return s.probe(a)
 	case "step":
 		a := s.actors[d.A]
 		if a == nil || !s.releasable(a) {
@@ -819,7 +906,9 @@ func (s *Sim) apply(d Decision) bool {
 		return true
 	case "acks":
 		s.curAcks = nil
-		s.Eng.NotifyAcks(d.IDs)
+		if pn, v := recoverCall(func() { s.Eng.NotifyAcks(d.IDs) }); pn {
+			s.notePanic(fmt.Sprintf("NotifyAcks(%v): %v", d.IDs, v))
+		}
 		i := len(s.Trace)
 		for _, id := range s.curAcks {
 			if c := s.callByID(id); c != nil {
@@ -831,12 +920,16 @@ func (s *Sim) apply(d Decision) bool {
 		}
 		s.Trace = append(s.Trace, Ev{K: "XAcks", L: append([]int64{}, d.IDs...), L2: append([]int64{}, s.curAcks...)})
 		return true
-	case "cancel":
+	case "cancel", "expire":
 		if d.C < 0 || d.C >= len(s.calls) || s.calls[d.C].ucancel {
 			return false
 		}
 		c := s.calls[d.C]
-		c.cancel()
+		if d.T == "expire" {
+			c.expire()
+		} else {
+			c.cancel()
+		}
 		c.ucancel, c.rcancel = true, true
 		s.Trace = append(s.Trace, Ev{K: "XCancel", A: d.C})
 		return true
@@ -893,6 +986,37 @@ func (s *Sim) TimerArmed(c int) bool {
 func (s *Sim) ForceClosed() bool { return s.fclosed }
 func (s *Sim) CloseCalled() bool { return s.nCloser > 0 }
 
+// waitProbed gives probed (running, possibly blocked) actors a moment when nothing else can move.
+func (s *Sim) waitProbed() bool {
+	any := false
+	for _, a := range s.actors {
+		if a.probed {
+			any = true
+		}
+	}
+	if !any {
+		return false
+	}
+	t := time.NewTimer(100 * time.Millisecond)
+	defer t.Stop()
+	select {
+	case m := <-s.msgs:
+		if m.a.probed {
+			m.a.probed = false
+		}
+		s.record(m)
+		return true
+	case <-t.C:
+		for _, a := range s.actors {
+			if a.probed {
+				a.probed, a.detached = false, true
+				s.Stranded = append(s.Stranded, fmt.Sprintf("%s@%s(blocked)", a.name, a.point))
+			}
+		}
+		return true
+	}
+}
+
 // Drain lets every actor run to completion, picking with pick(n) among the releasable
 // actors. If callers remain that cannot move, the engine is force-closed once; callers
 // that still cannot move afterwards are stranded.
@@ -908,6 +1032,9 @@ func (s *Sim) Drain(pick func(n int) int) (stranded []string) {
 			if s.Started(i) && !s.Finished(i) {
 				pending = true
 			}
+		}
+		if s.waitProbed() {
+			continue
 		}
 		if !pending {
 			break
